@@ -461,6 +461,7 @@ PROPS = {
                         "the 'actual list' is what a connection that selects the mailbox afresh is told; the mailbox's own semantics are C09"],
         "units": [
             rapid("c08", "TestPropViews", quick=(1000, 10), thorough=(20000, 16), steps=40),
+            rapid("c08", "TestPropConcurrentSelect", quick=(30, 6), thorough=(400, 14)),
         ],
     },
     "C09": {
@@ -526,6 +527,7 @@ PROPS = {
 
 # ---- additions of the second session (strengthened after seeded changes were missed; see DESIGN.md 8.4)
 _MORE = {
+    "C08": " Concurrent part (TestPropConcurrentSelect): a session SELECTs INBOX at the moment 1-3 other sessions MOVE / EXPUNGE all its messages or append to it (all commands of a round start together); after NOOP every session's reconstructed list must equal the freshly selected mailbox.",
     "C01": " Flags and mailbox attributes are also drawn from ARBITRARY strings (TestPropAnyFlag: every byte value between letters, UTF-8 words, well-known "
            "names with a letter replaced by a non-ASCII character that Unicode folding maps onto it, bare and in lists): 7-bit valid ones must be accepted, "
            "malformed ones refused, 8-bit ones either - and whatever is accepted must decode to the same value up to ASCII case of the well-known names. "
@@ -540,7 +542,7 @@ _MORE = {
            "size (and no command-like literal data) reaches the backend. Nesting probes are repeated after 9000 commands carrying empty lists on the same "
            "connection, and a SEARCH nested deeper than the cap must not reach the backend. Disconnect sweeps are repeated with the repository's in-memory "
            "backend behind the server (it streams body literals): the client vanishes at every 3rd (thorough: every) offset of generated transcripts, and after "
-           "having received k bytes of the responses for sampled k (the server's write fails there); goroutines gone, session closed exactly once.",
+           "having received k bytes of the responses for sampled k (the server's write fails there); goroutines gone, session closed exactly once. Stalled peers (TestPropIdlePeerStalls): a peer idles (or sends a FETCH) on a mailbox and stops reading - the transport blocks the server's writes to it, honouring the server's write deadlines shortened 1000 times - while a second connection makes 1-150 changes to the same mailbox; every command of the second connection completes, and once the first peer is gone its session is closed exactly once and no server goroutine remains.",
     "C07": " Mailbox changes are also made between two network writes of a running Poll (write hook on the server side of the connection): updates queued "
            "while a poll is writing must neither be lost nor overtake or overwrite the ones being written. SessionTracker.NumMessages() must equal the number "
            "of messages the client has been told about after every step.",
@@ -554,17 +556,17 @@ _MORE = {
     "C11": " Nesting probes are repeated after 9000 responses containing empty lists on the same connection (the cap must not depend on history).",
     "C12": " Rounds have up to 5 commands, several LIST/SEARCH commands per round (answered in sending order, their data carries no correlator), LIST ... RETURN "
            "(STATUS) with STATUS responses dropped for some mailboxes and \\Noselect mailboxes, STATUS on 'inbox' in three spellings answered in either spelling; "
-           "a final LOGOUT round with 0-2 commands pipelined behind it which are never answered (they must fail, State() must be logout).",
+           "a final LOGOUT round with 0-2 commands pipelined behind it which are never answered (they must fail, State() must be logout). Commands refused (NO/BAD) before login leave State() not authenticated; the STATUS data of a pipelined STATUS command may arrive before the completion of a plain LIST that lists the same mailbox.",
     "C13": " Workloads also contain 300-message FETCH streams whose consumer lags and calls State()/Mailbox() between messages, a 128 KiB body literal streamed in "
            "1500-byte reads while the server sends it in pieces, LOGOUT answered without closing for 0-6 further responses, commands with two synchronising "
            "literals of which the k-th is refused, NOOPs answered with unilateral EXPUNGE/EXISTS/FLAGS while other goroutines read every field of Mailbox(); "
-           "disruptors: server close, mid-line close, Client.Close, client write failure.",
+           "disruptors: server close, mid-line close, Client.Close, client write failure. STORE is answered with FETCH data of 1-40 items without literal; LIST RETURN (STATUS) answered with 70 mailboxes and a cut connection while its consumer shows up late and other goroutines submit commands a few ms later.",
     "C15": " Argument sets of AddSet stay alive: they are mutated later and compared with their own model after every step (no aliasing in either direction).",
     "C16": " Every encoder/decoder case additionally goes through the wire entry points imapwire.Encoder.Mailbox and Decoder.ExpectMailbox (literal form) and is "
-           "judged by the same reference codec.",
+           "judged by the same reference codec. Concurrent part (TestPropConcurrentCodec): 4-12 goroutines encode and decode their own names through fresh encoder/decoder values and the wire entry points at the same time, each judged by the reference codec.",
     "C18": " Capabilities and enabled extensions change during a session: a later LOGIN may be answered with other capabilities (with or without CAPABILITY "
            "code), UNAUTHENTICATE (with or without code) disables what ENABLE enabled, ENABLE may come late; each command is judged against what is in force "
-           "when it is sent.",
+           "when it is sent. CAPABILITY and LOGIN pipelined: the answer to the former (the old set) arrives between the latter and its completion.",
     "C19": " A quarter of the backend commands and a sixth of the stub commands are text-heavy: BODY/TEXT/SUBJECT/HEADER keys at several levels of one NOT/OR tree.",
 }
 for _k, _v in _MORE.items():
